@@ -38,6 +38,8 @@ func checkC09(ctx *Ctx, r *Report) {
 	// shared: constraint derivation and path freshness
 	c16OptionShape(ctx, r)
 	c17Paths(ctx, r)
+	inProgressRestored(ctx, r, []string{"internal/jennies/golang/validation.go"}, 1)
+	c09StaleLoopState(ctx, r, []string{"internal/veneers/option", "internal/veneers/builder", "internal/ast", "internal/languages"}, 20)
 }
 
 // (1a) order of derivation, veneers, nil checks
@@ -624,4 +626,165 @@ func evalWithField(info *types.Info, e ast.Expr, f *types.Var, v int64) (val boo
 		}
 	}
 	return false, false
+}
+
+// c09StaleLoopState: a variable declared outside a loop, assigned in the loop body only under a condition and read in the
+// body afterwards keeps, for the elements that do not satisfy the condition, the value computed for an earlier element.
+// In the veneers this hands one field's constraints (or type, or default) to the next field: a valid argument is then
+// rejected by the generated option. Accumulators (the new value is computed from the old one) and flags read only after
+// the loop are not concerned.
+func c09StaleLoopState(ctx *Ctx, r *Report, pkgs []string, floor int) {
+	n := 0
+	for _, rel := range pkgs {
+		p := ctx.Pkg(rel)
+		if p == nil {
+			r.Undecided("anchor lost: package %s", rel)
+			continue
+		}
+		info := p.TypesInfo
+		for _, file := range p.Syntax {
+			for _, d := range file.Decls {
+				fd, ok := d.(*ast.FuncDecl)
+				if !ok || fd.Body == nil {
+					continue
+				}
+				fobj, _ := info.Defs[fd.Name].(*types.Func)
+				parents := parentMap(fd)
+				ast.Inspect(fd.Body, func(m ast.Node) bool {
+					var body *ast.BlockStmt
+					switch x := m.(type) {
+					case *ast.RangeStmt:
+						body = x.Body
+					case *ast.ForStmt:
+						body = x.Body
+					}
+					if body == nil {
+						return true
+					}
+					n++
+					// assignments (=) in the body to variables declared outside it
+					type asg struct {
+						stmt *ast.AssignStmt
+						cond bool
+						self bool
+					}
+					byVar := map[types.Object][]asg{}
+					ast.Inspect(body, func(q ast.Node) bool {
+						if _, ok := q.(*ast.FuncLit); ok {
+							return false
+						}
+						as, ok := q.(*ast.AssignStmt)
+						if !ok || as.Tok == token.DEFINE {
+							return true
+						}
+						for i, l := range as.Lhs {
+							id, ok := ast.Unparen(l).(*ast.Ident)
+							if !ok {
+								continue
+							}
+							o := objOf(info, id)
+							v, isVar := o.(*types.Var)
+							if !isVar || v.IsField() || (o.Pos() >= body.Pos() && o.Pos() <= body.End()) {
+								continue
+							}
+							conditional := false
+							for a := parents[as]; a != nil && a != ast.Node(body); a = parents[a] {
+								switch a.(type) {
+								case *ast.IfStmt, *ast.CaseClause, *ast.ForStmt, *ast.RangeStmt:
+									conditional = true
+								}
+							}
+							self := as.Tok != token.ASSIGN // +=, etc.
+							if i < len(as.Rhs) {
+								ast.Inspect(as.Rhs[i], func(z ast.Node) bool {
+									if rid, ok := z.(*ast.Ident); ok && objOf(info, rid) == o {
+										self = true
+									}
+									return true
+								})
+							}
+							byVar[o] = append(byVar[o], asg{as, conditional, self})
+						}
+						return true
+					})
+					var vars []types.Object
+					for o := range byVar {
+						vars = append(vars, o)
+					}
+					sort.Slice(vars, func(i, j int) bool { return vars[i].Pos() < vars[j].Pos() })
+					for _, o := range vars {
+						all := byVar[o]
+						onlyConditional, accumulator := true, false
+						for _, a := range all {
+							if !a.cond {
+								onlyConditional = false
+							}
+							if a.self {
+								accumulator = true
+							}
+						}
+						if !onlyConditional || accumulator {
+							continue
+						}
+						// a read in the body that is not inside the statement of one of its assignments' conditional blocks and comes after the first assignment
+						var readAt token.Pos
+						ast.Inspect(body, func(q ast.Node) bool {
+							if _, ok := q.(*ast.FuncLit); ok {
+								return false
+							}
+							id, ok := q.(*ast.Ident)
+							if !ok || objOf(info, id) != o || readAt.IsValid() {
+								return true
+							}
+							// skip the assignment targets themselves
+							if as, ok := parents[id].(*ast.AssignStmt); ok {
+								for _, l := range as.Lhs {
+									if l == ast.Expr(id) {
+										return true
+									}
+								}
+							}
+							if id.Pos() < all[0].stmt.Pos() {
+								return true
+							}
+							// inside the same conditional block as an assignment that precedes it: fresh on that path
+							for _, a := range all {
+								var blk ast.Node
+								for x := parents[a.stmt]; x != nil && x != ast.Node(body); x = parents[x] {
+									if b, ok := x.(*ast.BlockStmt); ok && blk == nil {
+										blk = b
+									}
+								}
+								if blk != nil && id.Pos() > blk.Pos() && id.End() <= blk.End() && id.Pos() > a.stmt.Pos() {
+									return true
+								}
+							}
+							readAt = id.Pos()
+							return true
+						})
+						if !readAt.IsValid() {
+							continue
+						}
+						// boolean flags and error holders are reported elsewhere (sticky errors are wanted)
+						if t := o.Type(); t != nil {
+							if b, ok := t.Underlying().(*types.Basic); ok && b.Kind() == types.Bool {
+								continue
+							}
+							if t.String() == "error" {
+								continue
+							}
+						}
+						r.Bad("flow/loop-state-fresh", fmt.Sprintf("%s loop variable %s", ctx.FuncName(fobj), o.Name()), all[0].stmt.Pos(),
+							fmt.Sprintf("%s: %s is declared outside the loop, assigned in it only under a condition and read at %s: for an element that does not satisfy the condition it still holds what was computed for an earlier element (constraints / type / default of the previous field are applied to this one)", ctx.FuncName(fobj), o.Name(), ctx.Pos(readAt)))
+					}
+					return true
+				})
+			}
+		}
+	}
+	r.Count("loops examined for state carried from one element to the next", n)
+	r.Floor("loops examined for state carried from one element to the next", floor)
+	if n >= floor {
+		r.OK("flow/loop-state-fresh", "veneers and builder derivation", token.NoPos, "no loop reads, for one element, a value assigned under a condition for an earlier one")
+	}
 }
